@@ -112,7 +112,23 @@ func visitMarks(fs []*Term, f func(m *Term, ctx string)) {
 			f(t, "*")
 		case "select", "store":
 			if m := markIn(t.Args[1]); m != nil {
-				f(m, "sel:"+arrayBase(t.Args[0]))
+				ctx := "sel:" + arrayBase(t.Args[0])
+				f(m, ctx)
+				// index into a re-sliced slice: (off + lo) + k is also position lo + k of the
+				// original slice - register the shifted candidates as well
+				idx := t.Args[1]
+				if idx.Op == "bvadd" && !idx.hasB {
+					for _, o := range idx.Args {
+						if o == m || o.Op != "bvadd" {
+							continue
+						}
+						for _, part := range o.Args {
+							if !unmark(part).IsConst() || true {
+								f(Mark(BVBin("bvadd", unmark(part), unmark(m)), m.Name), ctx)
+							}
+						}
+					}
+				}
 			}
 		case "app":
 			for j, a := range t.Args {
@@ -403,6 +419,19 @@ func (w *World) Prepare(o *Obligation, lemmaMax int) ([]*Term, *prep) {
 		}
 	}
 	addSkolems()
+	if os.Getenv("GOVC_DEBUG_CANDS") != "" {
+		for k, m := range cands {
+			fmt.Fprintf(os.Stderr, "CAND %s: %d\n", k, len(m))
+		}
+		for _, f := range base {
+			if containsQuant(f) {
+				fmt.Fprintf(os.Stderr, "QUANT %s\n", f)
+				if f.Op == "forall" {
+					fmt.Fprintf(os.Stderr, "  ctx %v\n", boundContexts(f))
+				}
+			}
+		}
+	}
 	runInst := func() ([]*Term, []*Term) {
 		var nb, nd []*Term
 		for _, f := range base {
